@@ -233,7 +233,9 @@ const (
 
 var targetNames = []string{"any", "map[string]any", "[]any", "RawMessage", "string", "float64", "int", "struct", "map[string]int", "[]int", "[]*Flaky", "map[string]*Flaky", "map[string]struct", "*struct", "map[string]FlakyText", "static type", "map[int]string", "[3]any", "[]byte", "uint64", "**int", "RedirectMarshaler", "TrustMarshaler"}
 
-var tagNames = []string{"a", "b", "c", "foo", "A", "Foo", "", "-", "bar", "a/b", "é", "a_b", "created_at", "kind", "sk8", "user_id", "disk-size", "task2", "käse", "Kévin", "skål", "élèves"}
+var tagNames = []string{"a", "b", "c", "foo", "A", "Foo", "", "-", "bar", "a/b", "é", "a_b", "created_at", "kind", "sk8", "user_id", "disk-size", "task2", "käse", "Kévin", "skål", "élèves",
+	// names that are not valid tag names (the field name is used instead) and ones that just are
+	"it's", "a`b", "a\"b", "semi;colon", "a b", "tilde~", "q?", "a\\b"}
 
 var structCache = map[uint64]reflect.Type{}
 
